@@ -55,11 +55,11 @@ func init() {
 		vpkg + "Par":      func(fr *frame, a []value) value { fr.in.par(fr, a[0].([]value)); return nil },
 		vpkg + "Interleave": func(fr *frame, a []value) value { fr.in.interleave(fr, a[0], a[1]); return nil },
 		vpkg + "FixClock": func(fr *frame, a []value) value {
-			ns := fr.in.concInt(a[0])
-			if ns == 0 {
+			// the fixed instant may be symbolic (one clock variable the harness controls)
+			if c, ok := a[0].(int64); ok && c == 0 {
 				fr.in.fixedClock = nil
 			} else {
-				fr.in.fixedClock = &ns
+				fr.in.fixedClock = a[0]
 			}
 			return nil
 		},
